@@ -185,7 +185,12 @@ func (v *v18R) msg(m ndp.Message) string {
 // ---- generators
 
 var (
-	v18Hosts    = []string{"fe80::1", "fe80::2", "fe80::dead:beef", "2001:db8::1"}
+	// senders: link-local, global, and IPv4-mapped IPv6 addresses (::ffff:a.b.c.d is a 128-bit IPv6
+	// source like any other: the label must be that address, never its unmapped IPv4 form; labels
+	// are interned by their textual form, so "192.0.2.1" and "::ffff:192.0.2.1" are different hosts),
+	// the unspecified address (DAD probes) and the loopback.
+	v18Hosts = []string{"fe80::1", "fe80::2", "fe80::dead:beef", "2001:db8::1", "::ffff:192.0.2.1", "::ffff:192.0.2.254",
+		"::ffff:10.0.0.1", "::", "::1"}
 	v18Zones    = []string{"", "", "eth0", "wlan0", "7"}
 	v18Prefixes = []string{"2001:db8:1::/64", "2001:db8:2::/64", "::/0", "2001:db8:1::/48", "fd00::1/128", "2001:db8:1::/127",
 		"2001:db8:1:0:8000::/65", "fd00::/8", "fc00::/7", "8000::/1"}
@@ -416,6 +421,12 @@ func v18Case(t *testing.T, out *verifh.Out, id string, r *verifh.Rand) {
 			tags["sender:zone"] = true
 		} else {
 			tags["sender:no-zone"] = true
+		}
+		if from.Is4In6() {
+			tags["sender:ipv4-mapped"] = true
+			if from.Zone() != "" {
+				tags["sender:ipv4-mapped+zone"] = true
+			}
 		}
 		wire := listener || r.Chance(40)
 		msg, mtags, err := v18Message(r, wire)
